@@ -574,6 +574,17 @@ class HashRule(ABC):
                             symbol, src_fn.__name__, symbol_part, parts[i]
                         )
                     )
+
+
+                def ref_resolver(path=tuple(parts[0:i])):
+                    # Walk to the object in front of the missing attribute from the global
+                    # table each time (see below): the attribute may turn up because a part
+                    # of the path was re-bound to an object that has it
+                    obj = global_table.get(path[0])
+                    for attr in path[1:]:
+                        obj = getattr(obj, attr, None)
+                    return obj
+
                 result.add(
                     UndefinedSymbolHashRule(
                         ref,
@@ -582,6 +593,7 @@ class HashRule(ABC):
                         first_level=first_level,
                         ref_is_global_table=False,
                         path=symbol_part + "." + parts[i],
+                        ref_resolver=ref_resolver,
                     )
                 )
                 return
@@ -655,6 +667,7 @@ class UndefinedSymbolHashRule(HashRule):
         first_level: bool,
         ref_is_global_table: bool,
         path: str = None,
+        ref_resolver: Callable = None,
     ):
         # The key names the whole dotted path: `m1.x` and `m2.x` (and a global `x`) are
         # different symbols, each of which can be defined later on its own
@@ -668,6 +681,7 @@ class UndefinedSymbolHashRule(HashRule):
         )
         self.ref = ref
         self.ref_is_global_table = ref_is_global_table
+        self.ref_resolver = ref_resolver
 
     def clone(self) -> HashRule:
         return UndefinedSymbolHashRule(
@@ -677,6 +691,7 @@ class UndefinedSymbolHashRule(HashRule):
             self.first_level,
             self.ref_is_global_table,
             self.path,
+            self.ref_resolver,
         )
 
     def collect_transitive_dependencies(
@@ -697,6 +712,10 @@ class UndefinedSymbolHashRule(HashRule):
         # Considered changed if the symbol now points to something.
         if self.ref_is_global_table:
             return self.symbol in self.ref
+
+        if self.ref_resolver is not None:
+            # What stands in front of the attribute may be another object by now
+            return hasattr(self.ref_resolver(), self.symbol)
 
         return hasattr(self.ref, self.symbol)
 
